@@ -130,11 +130,16 @@ func genC50(seed uint64, tier string) *c50Scenario {
 
 // c50Counters: one set per (reporter, locality) / (reporter, category).
 type c50LocCount struct {
-	startInv, startRet int // CallStarted invoked / returned
-	finInv, finRet     int // CallFinished invoked / returned
-	succ, errd         int // finished OK / with error (invoked)
-	loadN              [c50NName]int
+	startInv, startRet int           // CallStarted invoked / returned
+	finInv, finRet     int           // CallFinished invoked / returned
+	succ, errd         int           // finished OK / with error (invoked)
+	loadN              [c50NName]int // CallServerLoad invoked
 	loadSum            [c50NName]float64
+	loadRetN           [c50NName]int // CallServerLoad returned
+	loadRetSum         [c50NName]float64
+	wsLoadN            [c50NName]int // loadRetN/loadRetSum when the current snapshot window began
+	wsLoadSum          [c50NName]float64
+	inLast             bool // the latest report had an entry for this locality
 	// in-progress bounds over the current snapshot window
 	minLo, maxHi int
 	// reported so far
@@ -312,6 +317,14 @@ func (h *c50H) report(req *v3lrspb.LoadStatsRequest) {
 					e.Violate("overcount", "cluster %d locality %d metric %q: reported so far n=%d sum=%v, recorded n=%d sum=%v", rep, li, m.GetMetricName(), c.rLoadN[ni], c.rLoadSum[ni], c.loadN[ni], c.loadSum[ni])
 				}
 			}
+			// The locality is in this report, so its server loads were swept:
+			// everything recorded before the snapshot window began must have
+			// been reported by now.
+			for ni := range c50Names {
+				if c.rLoadN[ni] < uint64(c.wsLoadN[ni]) || c.rLoadSum[ni] < c.wsLoadSum[ni] {
+					e.Violate("server_load_lost", "cluster %d locality %d metric %q: n=%d sum=%v were recorded before this report's snapshot began, but only n=%d sum=%v reported so far", rep, li, c50Names[ni], c.wsLoadN[ni], c.wsLoadSum[ni], c.rLoadN[ni], c.rLoadSum[ni])
+				}
+			}
 		}
 	}
 	// A locality that is left out of a report has, by the report format, no
@@ -328,6 +341,8 @@ func (h *c50H) report(req *v3lrspb.LoadStatsRequest) {
 			// next window starts when this Send returns; nothing runs between
 			// here and that return.
 			c.minLo, c.maxHi = c.lo(), c.hi()
+			c.wsLoadN, c.wsLoadSum = c.loadRetN, c.loadRetSum
+			c.inLast = seenLoc[rep][li]
 		}
 	}
 }
@@ -395,6 +410,8 @@ func runC50(e *core.Env, s *c50Scenario) {
 					c.loadN[op.Name]++
 					c.loadSum[op.Name] += float64(op.Val)
 					reps[op.Rep].CallServerLoad(c50Loc(op.Loc), c50Names[op.Name], float64(op.Val))
+					c.loadRetN[op.Name]++
+					c.loadRetSum[op.Name] += float64(op.Val)
 				case "drop":
 					e.Logf("%s drop rep%d cat=%q", who, op.Rep, c50Cats[op.Cat])
 					h.drops[op.Rep][op.Cat]++
@@ -443,7 +460,15 @@ func runC50(e *core.Env, s *c50Scenario) {
 				e.Violate("requests_conservation", "cluster %d locality %d: recorded issued/ok/err=%d/%d/%d, reports total %d/%d/%d", rep, li, c.startInv, c.succ, c.errd, c.rIssued, c.rSucc, c.rErr)
 			}
 			for ni := range c50Names {
-				if c.rLoadN[ni] != uint64(c.loadN[ni]) || c.rLoadSum[ni] != c.loadSum[ni] {
+				if c.rLoadN[ni] == uint64(c.loadN[ni]) && c.rLoadSum[ni] == c.loadSum[ni] {
+					continue
+				}
+				if c.inLast {
+					// (kept apart from the next oracle: that one has a known
+					// cause which needs the locality to be absent from the
+					// final report)
+					e.Violate("server_load_lost", "cluster %d locality %d metric %q: recorded n=%d sum=%v, reports total n=%d sum=%v although the final report covers the locality", rep, li, c50Names[ni], c.loadN[ni], c.loadSum[ni], c.rLoadN[ni], c.rLoadSum[ni])
+				} else {
 					e.Violate("server_load_conservation", "cluster %d locality %d metric %q: recorded n=%d sum=%v, reports total n=%d sum=%v", rep, li, c50Names[ni], c.loadN[ni], c.loadSum[ni], c.rLoadN[ni], c.rLoadSum[ni])
 				}
 			}
@@ -452,3 +477,24 @@ func runC50(e *core.Env, s *c50Scenario) {
 }
 
 func init() { core.Register("C50", genC50, runC50) }
+
+// Protobuf builds its per-message coder tables lazily on first use (typed
+// atomics = scheduling points). Touch every message type a report can contain
+// once at process start, outside any run, so that no run pays for it.
+func init() {
+	req := &v3lrspb.LoadStatsRequest{ClusterStats: []*v3endpointpb.ClusterStats{{
+		ClusterName: "w", ClusterServiceName: "w", TotalDroppedRequests: 1,
+		DroppedRequests:    []*v3endpointpb.ClusterStats_DroppedRequests{{Category: "w", DroppedCount: 1}},
+		LoadReportInterval: durationpb.New(time.Second),
+		UpstreamLocalityStats: []*v3endpointpb.UpstreamLocalityStats{{
+			TotalSuccessfulRequests: 1, TotalRequestsInProgress: 1, TotalErrorRequests: 1, TotalIssuedRequests: 1,
+			LoadMetricStats: []*v3endpointpb.EndpointLoadMetricStats{{MetricName: "w", NumRequestsFinishedWithMetric: 1, TotalMetricValue: 1}},
+			CpuUtilization:  &v3endpointpb.UnnamedEndpointLoadMetricStats{NumRequestsFinishedWithMetric: 1, TotalMetricValue: 1},
+		}},
+	}}}
+	b, _ := proto.Marshal(req)
+	_ = proto.Unmarshal(b, &v3lrspb.LoadStatsRequest{})
+	resp := &v3lrspb.LoadStatsResponse{Clusters: []string{"w"}, SendAllClusters: true, LoadReportingInterval: durationpb.New(time.Second)}
+	b, _ = proto.Marshal(resp)
+	_ = proto.Unmarshal(b, &v3lrspb.LoadStatsResponse{})
+}
